@@ -196,6 +196,37 @@ def run(ctx):
         R.ob('C13.admit', ('admission', 'tracker handed out is the one the table knows', arm), ok,
              'the tracker given to an admitted channel is the upgrade of the key\'s entry, or a fresh tracker whose downgrade is stored in that entry before it is returned', [adm.loc(s)], '; '.join(det))
 
+    # refusals produced by `option.ok_or(key)` / `ok_or_else(..)`: the option must be None only at the limit.  When it comes from a local helper, every way
+    # that helper returns None is inspected: a None built under count >= limit is a refusal at the limit; a `?` on `upgrade()` (None because no channel of
+    # the key is alive) is a refusal with nothing alive
+    for g in F.with_descendants(adm):
+        for bb, t in g.calls():
+            if not callee_is(t, 'Option::ok_or', 'Option::ok_or_else'):
+                continue
+            rec = P.root(P.operand(g, t['args'][0], at=bb), inline=False)
+            okk, det = bool(rec), []
+            for r, p_ in rec:
+                ru = P.unbound(r)
+                h = F.callee_fn(P.call_term(ru)) if ru[0] == 'call' else None
+                if h is None:
+                    raise CannotDecide('refusal built from an Option whose origin is not a local function (%s)' % P.describe(r))
+                # None returns of h
+                for i_, j_, s_ in h.stmts():
+                    rv_ = s_['rv']
+                    if rv_['k'] == 'agg' and rv_.get('variant') == 'None' and 'Option' in (rv_.get('adt') or '') and s_['pl']['l'] == 0:
+                        facts = cmp_facts(F, P, h, i_)
+                        at_limit = any(o2 == 'Ge' and any(P.is_call(x, 'Weak::strong_count', 'Arc::strong_count') or (P.unbound(x)[0] == 'bin') for x, _ in P.root(a_))
+                                       for op_, a0, b0, _ in facts for (o2, a_, b_) in ((op_, a0, b0), (SWAP[op_], b0, a0)))
+                        if not at_limit:
+                            okk = False
+                            det.append('None returned without the limit fact at %s' % h.loc(s_))
+                for b2, t2 in h.calls():
+                    if callee_is(t2, 'FromResidual::from_residual') and 'Option' in (t2.get('self_ty') or ''):
+                        okk = False
+                        det.append('`?` on an Option in %s returns None for a reason other than the limit (%s)' % (h.npath.split('::')[-1], h.loc(t2)))
+            R.ob('C13.admit', ('admission', 'shed only at the limit', 'ok_or'), okk,
+                 'a channel is refused only under strong_count(entry) >= channels_per_key', [g.loc(t)], '; '.join(det))
+
     # a channel is shed only by the admission decision above: no other code on the accept path manufactures a refusal (e.g. from a remembered earlier refusal)
     adm_ids = {b_.id for b_ in F.with_descendants(adm)}
     def _from_admission(g, i_, j_):
